@@ -131,6 +131,7 @@ func c06CloseResult(c *Check, P string, r *RouterRoles2) {
 		}
 	}
 	timedOut, _ := BoolEdges(Cl, ResultOfAny(waits, 0))
+	ErrorsOnlyFrom(c, P+".O3", "CLOSE-FAILS-ONLY-ON-TIMEOUT", Cl, nil, timedOut, "Close reports an error only when the handlers did not finish within CloseTimeout")
 	for _, e := range timedOut {
 		re := ReachEdge(e, nil)
 		ok := true
